@@ -26,7 +26,7 @@ def parse_impl(rep):
     if rep is None or not rep.startswith("ok "):
         return None
     xs = U.parse_sexps(rep[3:])
-    out = {"entries": [], "logs": [], "status": None, "msg": None}
+    out = {"entries": [], "logs": [], "status": None, "msg": None, "probe": None}
     for x in xs:
         if x[0] in ("e", "end"):
             bar = x.index("|")
@@ -42,6 +42,8 @@ def parse_impl(rep):
             out["entries"].append(ent)
         elif x[0] == "logs":
             out["logs"] = [bytes.fromhex(q[1]) for q in x[1:]]
+        elif x[0] == "probe":
+            out["probe"] = U.show(x)
         elif x[0] == "msg":
             out["msg"] = bytes.fromhex(x[1][1]).decode("utf-8", "replace")
     return out
@@ -219,6 +221,11 @@ def derived_of(target, pool):
     return out
 
 
+def probe_diff(a, b):
+    xa, xb = a.split(" ("), (b or "").split(" (")
+    return "; ".join("%s -> %s" % (p, q) for p, q in zip(xa, xb) if p != q)[:400] or "(length differs)"
+
+
 def prog_line(prog, line):
     return prog._text.splitlines()[line - 1].strip() if getattr(prog, "_text", None) else "?"
 
@@ -369,6 +376,7 @@ def run(ctx):
         "statement_snapshots_checked_by_oracle": n_pairs,
         "model_runs": acc["model_runs"], "model_agree": agree, "model_status": mstat,
         "log_lines_cross_checked": n_loglines,
+        "fresh_interpreter_probes_equal_to_a_new_process": acc.get("probes_equal", 0), "probes_differing": acc.get("probe_diffs", 0),
         "dimension_counts": dict(sorted(dims.items())),
         "budget_shares": {"core programs with shape focus": "1/3", "wild programs with shape + all-types focus": "1/2"},
         "generator_stats": dict(sorted(stats.items())),
@@ -393,10 +401,25 @@ def process_chunk(ctx, impl, model, progs, wild, acc, thorough):
         p._text = text
     ireps, st = U.robust_batch(impl, reqs, hang_s=60)
     wd(st)
+    if acc.get("probe_baseline") is None:
+        # what a fresh interpreter (a second service) looks like in a process that has run nothing
+        base = parse_impl(U.robust_batch(impl, ["recv - " + "sub t_main {\n}\n".encode().hex()], hang_s=60)[0][0])
+        acc["probe_baseline"] = base["probe"] if base else "?"
     itraces = []
+    dirty = False
     for p, rep, (text, linemap) in zip(allp, ireps, maps):
         it = parse_impl(rep)
         itraces.append(it)
+        if it is not None and it["probe"] != acc["probe_baseline"]:
+            acc["probe_diffs"] = acc.get("probe_diffs", 0) + 1
+            if not dirty:
+                # the first program after which the process is no longer pristine is the culprit
+                dirty = True
+                ctx.violation("process-global state: after this program a FRESH interpreter (second service, same process) no longer "
+                              "looks as in a new process: %s" % probe_diff(acc["probe_baseline"], it["probe"]),
+                              {"scope": p.scope, "vcl": text, "probe_fresh_process": acc["probe_baseline"], "probe_after": it["probe"]})
+        elif it is not None:
+            acc["probes_equal"] = acc.get("probes_equal", 0) + 1
         if it is None:
             ctx.violation("interpreter %s on a generated store program (reproduced on a second and third run alone)" % ((rep or "no reply")[:120]),
                           {"scope": p.scope, "vcl": text, "reply": rep})
